@@ -1,0 +1,69 @@
+# Copyright (c) Microsoft Corporation.
+# Licensed under the MIT License.
+"""Trace hooks for external verification tooling.
+
+Everything here is inert unless the environment variable ``ONNXSCRIPT_VERIF`` is set to ``1``
+when the package is imported.  With the guard on, instrumented call sites append one event per
+state change (after the change) to the trace that is currently open; a finished trace is kept in
+``traces`` and, if ``ONNXSCRIPT_VERIF_TRACE`` names a file, appended to it as one JSON line.
+"""
+
+from __future__ import annotations
+
+import json
+import os
+from typing import Any
+
+ENABLED = os.environ.get("ONNXSCRIPT_VERIF") == "1"
+
+traces: list[dict[str, Any]] = []
+_open: dict[str, dict[str, Any]] = {}
+
+
+def _flush(trace: dict[str, Any]) -> None:
+    path = os.environ.get("ONNXSCRIPT_VERIF_TRACE")
+    if path:
+        # one file per process: concurrent test workers must not interleave their lines
+        with open(f"{path}.{os.getpid()}", "a", encoding="utf-8") as f:
+            f.write(json.dumps(trace, default=str) + "\n")
+    else:
+        traces.append(trace)
+
+
+def begin(kind: str, **meta: Any) -> None:
+    """Open a trace of the given kind (an unfinished one of that kind is closed as aborted)."""
+    if not ENABLED:
+        return
+    previous = _open.pop(kind, None)
+    if previous is not None:
+        previous["finished"] = False
+        _flush(previous)
+    _open[kind] = {"kind": kind, "meta": meta, "events": [], "finished": False}
+
+
+def emit(kind: str, ev: str, **fields: Any) -> None:
+    """Append an event to the open trace of the given kind (ignored if none is open)."""
+    if not ENABLED:
+        return
+    trace = _open.get(kind)
+    if trace is not None:
+        trace["events"].append({"ev": ev, **fields})
+
+
+def end(kind: str, **fields: Any) -> None:
+    """Close the open trace of the given kind."""
+    if not ENABLED:
+        return
+    trace = _open.pop(kind, None)
+    if trace is not None:
+        trace["finished"] = True
+        trace["end"] = fields
+        _flush(trace)
+
+
+def abort_all() -> None:
+    """Close every open trace as unfinished (called by tooling after an exception)."""
+    for kind in list(_open):
+        trace = _open.pop(kind)
+        trace["finished"] = False
+        _flush(trace)
